@@ -917,7 +917,8 @@ fn judge(w: &Workload, ex: &Execution) -> (Vec<(String, String)>, bool) {
 /// pre-population) ALL interleavings at hook granularity are enumerated by depth-first search over
 /// the baton's decisions (re-execution with a decision prefix; beyond the prefix the lowest runnable
 /// task is chosen; every alternative at every later decision becomes a new prefix).
-fn systematic(ctx: &Ctx, workloads: Vec<Workload>, label: &'static str, max_execs_per_workload: u64) {
+fn systematic(ctx: &Ctx, workloads: Vec<Workload>, label: &'static str, max_execs_per_workload: u64, time_budget: Duration) {
+    let deadline = std::time::Instant::now() + time_budget;
     let queue = Mutex::new(workloads);
     let total_paths = AtomicU64::new(0);
     let complete = AtomicU64::new(0);
@@ -934,7 +935,7 @@ fn systematic(ctx: &Ctx, workloads: Vec<Workload>, label: &'static str, max_exec
                 let mut execs = 0u64;
                 let mut cut = false;
                 while let Some(prefix) = stack.pop() {
-                    if execs >= max_execs_per_workload {
+                    if execs >= max_execs_per_workload || std::time::Instant::now() > deadline {
                         cut = true;
                         break;
                     }
@@ -1076,11 +1077,11 @@ fn main() {
         let all: [u8; 6] = [0, 1, 2, 3, 4, 5];
         let two = systematic_workloads(&[Kind::Memory, Kind::MemoryEvicting(0), Kind::DiskFlat, Kind::Dynamic], 2, &all);
         ctx.obs("systematic.two_tasks.workloads", two.len() as u64);
-        systematic(&ctx, two, "two_tasks", 20_000);
+        systematic(&ctx, two, "two_tasks", 20_000, Duration::from_secs(ctx.pick(40, 120)));
         if !ctx.quick() {
             let three = systematic_workloads(&[Kind::Memory, Kind::DiskFlat], 3, &all);
             ctx.obs("systematic.three_tasks.workloads", three.len() as u64);
-            systematic(&ctx, three, "three_tasks", 60_000);
+            systematic(&ctx, three, "three_tasks", 60_000, Duration::from_secs(150));
         }
     }
     let max_ops = ctx.pick(3usize, 6usize);
@@ -1089,7 +1090,7 @@ fn main() {
     let threads = 16u64;
     let interleavings: Mutex<HashSet<u64>> = Mutex::new(HashSet::new());
     let site_hits: Mutex<BTreeMap<&'static str, u64>> = Mutex::new(BTreeMap::new());
-    let deadline = std::time::Instant::now() + Duration::from_secs(ctx.pick(35, 420));
+    let deadline = std::time::Instant::now() + Duration::from_secs(ctx.pick(30, 200));
 
     std::thread::scope(|s| {
         for t in 0..threads {
@@ -1191,7 +1192,7 @@ fn main() {
     });
 
     // stress mode: real parallelism, a few executions at a time (each uses 2-3 threads)
-    let stress_deadline = std::time::Instant::now() + Duration::from_secs(ctx.pick(15, 180));
+    let stress_deadline = std::time::Instant::now() + Duration::from_secs(ctx.pick(15, 100));
     std::thread::scope(|s| {
         for t in 0..6u64 {
             let ctx = &ctx;
